@@ -157,10 +157,15 @@ def run_group(group, tier="quick"):
         for n, r2 in parse_output(raw["playback_stdout"], []).items():
             if n in per and r2.get("concrete"):
                 per[n]["concrete"] = r2["concrete"]
-    if raw.get("timeout"):
+    timed_out = bool(raw.get("timeout"))
+    if timed_out and not any(r["verdict"] == "FAILED" for r in per.values()):
         out.update(status="undecided", reason=f"kani timed out after {raw['wall']:.0f}s")
     for h in harnesses:
         r = per.get(h["name"])
+        if (r is None or r["verdict"] is None) and timed_out and any(x["verdict"] == "FAILED" for x in per.values()):
+            # the group ran out of time, but another harness of the group already FAILED: that failure is a verdict
+            out["harnesses"].append({"name": h["name"], "target": h["target"], "seconds": None, "bounded": h.get("bounded"), "verdict": "TIMEOUT (not decided)"})
+            continue
         if r is None or r["verdict"] is None:
             if out["status"] == "ok":
                 err = re.findall(r"error(?:\[E\d+\])?: [^\n]*", raw["stdout"] + raw["stderr"])
@@ -171,7 +176,7 @@ def run_group(group, tier="quick"):
         if r["unwind_failure"]:
             out.update(status="undecided", reason=f"unwinding assertion failed in {h['name']}: bound too small, not a verdict")
             continue
-        if r["covers"] and r["covers"][0] < r["covers"][1]:
+        if r["verdict"] != "FAILED" and r["covers"] and r["covers"][0] < r["covers"][1]:
             out.update(status="undecided", reason=f"vacuity guard: only {r['covers'][0]} of {r['covers'][1]} cover properties satisfied in {h['name']}")
             continue
         if r["verdict"] == "FAILED":
@@ -179,7 +184,7 @@ def run_group(group, tier="quick"):
             loc = f"{r['failed_checks'][0][1]}:{r['failed_checks'][0][2]}" if r["failed_checks"] else None
             out["failures"].append({"harness": h["name"], "kind": "kani check failed", "check": chk, "location": loc,
                                     "output": r["tail"], "concrete": ({"kani_concrete_playback": r["concrete"]} if r["concrete"] else None),
-                                    "falsify_ops": h.get("falsify_ops", [])})
+                                    "falsify_ops": h.get("falsify_ops", []), "playback": h.get("playback")})
     return out
 
 
